@@ -208,6 +208,8 @@ def run(ctx: Ctx):
                        f"`{u(n)[:90]}` pads scores with something other than -inf (an unusable slot would outrank "
                        f"real paths)", rel, n.lineno, sample=u(n)[:120])
         col.floor(f"score_pad_sites[{tag}]", n_, 1)
+    _all_paths_done_ignores_empty_slots(ctx)
+    _pad_block_takes_extents_from_its_partner(ctx)
     # shallow fusion: each component keeps its own state through split / extract / mix / merge
     from .search_common import fusion_component_lineage
     fusion_component_lineage(ctx, "S3")
@@ -229,10 +231,99 @@ def run(ctx: Ctx):
     )
 
 
+def _all_paths_done_ignores_empty_slots(ctx: Ctx):
+    """S5: beam_search_advance fills the beam with score -inf slots whenever the width exceeds the number of candidates,
+    and zero-probability extensions are -inf too. Such slots never end in eos, so the 'every path has finished' test of
+    BeamSearch.forward (the reduction with .all over the beam axis) must treat a slot whose score is -inf as finished;
+    otherwise the search never terminates (or runs to max_iters, calling the model with idx > hist.size(0))."""
+    from sa.defuse import ReachingDefs
+    col, pkg = ctx.col, ctx.pkg
+    f = pkg.func("_decoding::BeamSearch.forward")
+    rel = f.module.relname
+    rd = ReachingDefs(f.node)
+    pm = parent_map(f.node)
+    adv = [c for c in own_calls(f.node) if call_name(c) == "beam_search_advance"]
+    if len(adv) != 1 or len(adv[0].args) < 3 or not isinstance(adv[0].args[2], ast.Name):
+        raise AnalysisError("C04: BeamSearch.forward no longer calls beam_search_advance(log_probs_t, width, <scores>, ...)")
+    score = adv[0].args[2].id
+    sites = []
+    for n in own_nodes(f.node):
+        if isinstance(n, ast.Call) and isinstance(n.func, ast.Attribute) and n.func.attr == "all" and n.args and u(n.args[0]) == "1" \
+                and any(u(t) == "self.finish_all_paths" and pol for t, pol in guards_of(pm, n)):
+            sites.append(n)
+    if len(sites) != 1:
+        raise AnalysisError(f"C04: expected one all-paths reduction under finish_all_paths, found {len(sites)}")
+    red = sites[0].func.value
+    der = rd.derives(red)
+    mentions = any(isinstance(x, ast.Name) and x.id == score for x in ast.walk(red)) or score in {getattr(d, "name", None) for d in der.defs}
+    neg_inf = any(is_neg_inf(x) for x in ast.walk(red)) or any(
+        isinstance(c, ast.Call) and isinstance(c.func, ast.Attribute) and c.func.attr in ("isinf", "isneginf", "isfinite") for c in ast.walk(red))
+    col.ob("G20", "S5", f"{rel}::BeamSearch.forward::all-paths-finished-counts-empty-slots", mentions and neg_inf,
+           f"under finish_all_paths the search stops when `{u(sites[0])[:90]}`; slots whose score `{score}` is -inf (beam wider "
+           f"than the number of paths, zero-probability extensions) never end in eos, so this is never true: the call does not "
+           f"return (or runs to max_iters with idx > hist.size(0)) and a batch element that is done breaks the frozen-copy shapes",
+           rel, sites[0].lineno, sample=u(sites[0])[:120])
+
+
+def _pad_block_takes_extents_from_its_partner(ctx: Ctx):
+    """S6: `torch.cat([A, A.new_empty(e0, e1, e2)], k)` needs e_i == A.size(i) for every i != k. Where A's extent along i is
+    path-dependent - one reaching definition of A concatenates along i ("don't make y bigger unless we have to") and another
+    does not - a fixed expression for e_i is wrong on one of the paths; it has to be read from A itself."""
+    from sa.defuse import ReachingDefs
+    col, pkg = ctx.col, ctx.pkg
+    f = pkg.func("_decoding::beam_search_advance")
+    rel = f.module.relname
+    rd = ReachingDefs(f.node)
+    n_sites = 0
+    for c in own_calls(f.node):
+        if call_name(c) != "torch.cat" or len(c.args) < 2 or not isinstance(c.args[0], (ast.List, ast.Tuple)) or len(c.args[0].elts) != 2:
+            continue
+        a, b = c.args[0].elts
+        k = c.args[1]
+        if not (isinstance(a, ast.Name) and isinstance(k, ast.Constant) and isinstance(b, ast.Call) and isinstance(b.func, ast.Attribute)
+                and b.func.attr in ("new_empty", "new_full", "new_zeros", "new_ones") and u(b.func.value) == a.id):
+            continue
+        shape = list(b.args[0].elts) if b.args and isinstance(b.args[0], ast.Tuple) else [x for x in b.args if not isinstance(x, ast.Constant) or isinstance(x.value, int)]
+        if b.func.attr == "new_full" and not (b.args and isinstance(b.args[0], ast.Tuple)):
+            continue
+        # dims along which some (transitive) definition of A grows it
+        grows = set()
+        seen = set()
+
+        def walk(name_node, depth=0):
+            if depth > 6:
+                return
+            for d in rd.defs_of(name_node):
+                if id(d) in seen or d.value is None:
+                    continue
+                seen.add(id(d))
+                v = d.value
+                if isinstance(v, ast.Call) and call_name(v) == "torch.cat" and len(v.args) >= 2 and isinstance(v.args[1], ast.Constant):
+                    grows.add(v.args[1].value)
+                for x in ast.walk(v):
+                    if isinstance(x, ast.Name) and x.id == name_node.id and isinstance(x.ctx, ast.Load):
+                        walk(x, depth + 1)
+        walk(a)
+        ndefs = len(list(rd.defs_of(a)))
+        for i, e in enumerate(shape):
+            if i == k.value or i not in grows or ndefs < 2:
+                continue
+            n_sites += 1
+            from_partner = any(isinstance(x, ast.Call) and isinstance(x.func, ast.Attribute) and x.func.attr == "size" and u(x.func.value) == a.id
+                               for x in ast.walk(e)) or any(isinstance(x, ast.Attribute) and x.attr == "shape" and u(x.value) == a.id for x in ast.walk(e))
+            col.ob("G19", "S6", f"{rel}::beam_search_advance::pad-block-extent[{i}]-read-from-{a.id}", from_partner,
+                   f"`{u(c)[:100]}` pads `{a.id}` along axis {k.value} with a block whose extent along axis {i} is `{u(e)}`, but "
+                   f"`{a.id}` is only sometimes grown along axis {i} (one of its definitions concatenates along it, another does "
+                   f"not): on the other path the two blocks disagree and torch.cat raises", rel, c.lineno, sample=u(e))
+    col.floor("pad_block_sites", n_sites, 1)
+
+
 def _mutants():
     from selftest.mutate import Mutant as M
     D = "_decoding.py"
     return [
+        M("filler-block-assumes-growth", "_decoding.py", "y_next = torch.cat([y_next, y_next.new_empty(y_next.size(0), N, rem)], 2)", "y_next = torch.cat([y_next, y_next.new_empty(tm1 + 1, N, rem)], 2)", "pad-block-extent"),
+        M("waits-for-empty-slots", "_decoding.py", "done_mask = (eos_mask | (log_probs_prev == -float('inf'))).all(1, keepdim=True)", "done_mask = eos_mask.all(1, keepdim=True)", "all-paths-finished-counts-empty-slots"),
         M("fused-second-state-from-first", "_lm.py", "prev_second = self.second.extract_by_src(prev_second, src)", "prev_second = self.second.extract_by_src(prev_first, src)", "own-state"),
         M("stale-state", D, "prev = self.lm.extract_by_src(in_next, next_src.flatten())",
           "prev = self.lm.extract_by_src(prev, next_src.flatten())", "extract_by_src(state of this step)"),
